@@ -136,7 +136,7 @@ pub struct Inflight {
 }
 
 pub const MAX_SLOTS: usize = 64;
-pub const DEFAULT_DEADLINE_MS: u64 = 60_000;
+pub const DEFAULT_DEADLINE_MS: u64 = 120_000;
 
 static INFLIGHT: std::sync::OnceLock<Option<Inflight>> = std::sync::OnceLock::new();
 
@@ -179,7 +179,10 @@ impl Inflight {
         if let Ok(f) = self.files[slot].lock() {
             let _ = f.write_all_at(&body, 0);
         }
-        self.deadline_ms[slot].store(deadline_ms, Ordering::Relaxed);
+        // HV_DEADLINE_SCALE: the supervisor retries a run with wider deadlines after a case was
+        // slow under load but fine alone
+        let scale: u64 = std::env::var("HV_DEADLINE_SCALE").ok().and_then(|s| s.parse().ok()).unwrap_or(1);
+        self.deadline_ms[slot].store(deadline_ms.saturating_mul(scale.max(1)), Ordering::Relaxed);
         self.started[slot].store(self.t0.elapsed().as_millis() as u64 + 1, Ordering::Release);
     }
     pub fn end(&self, slot: usize) {
@@ -428,6 +431,8 @@ pub struct Run {
     pub known_reproduced: BTreeMap<String, String>,
     pub health_problems: Vec<String>,
     pub infra_problems: Vec<String>,
+    /// infrastructure incidents below the tolerance (reported, do not change the verdict)
+    pub infra_notes: Vec<String>,
     pub assumptions: Vec<String>,
     pub rule: String,
     pub level: String,
@@ -456,6 +461,7 @@ impl Run {
             known_reproduced: BTreeMap::new(),
             health_problems: vec![],
             infra_problems: vec![],
+            infra_notes: vec![],
             assumptions: vec![],
             rule: String::new(),
             level: "exploration".to_string(),
@@ -502,8 +508,16 @@ impl Run {
 
     pub fn add_stats(&mut self, st: CheckStats) {
         for (k, n) in st.classes.iter().filter(|(k, _)| k.starts_with("INFRA")) {
-            self.infra_problems
-                .push(format!("check {}: {k} ({n}x)", st.name));
+            // a case lost to the machine (a server start or answer that timed out under load) is
+            // not evidence about the property either way; a few of them are reported, many make
+            // the run inconclusive
+            let tolerated = (st.evaluations / 20).max(1);
+            if *n <= tolerated {
+                self.infra_notes.push(format!("check {}: {k} ({n}x, cases skipped)", st.name));
+            } else {
+                self.infra_problems
+                    .push(format!("check {}: {k} ({n}x)", st.name));
+            }
         }
         let hits: Vec<String> = st.known_hits.keys().cloned().collect();
         for k in hits {
@@ -944,6 +958,7 @@ impl Run {
         );
         coverage.insert("generator_health_problems".into(), json!(self.health_problems));
         coverage.insert("infrastructure_problems".into(), json!(self.infra_problems));
+        coverage.insert("infrastructure_incidents_tolerated".into(), json!(self.infra_notes));
         for (k, v) in std::mem::take(&mut self.extra) {
             coverage.insert(k, v);
         }
@@ -996,6 +1011,9 @@ impl Run {
                 );
             }
             return 1;
+        }
+        for n in &self.infra_notes {
+            println!("  note: {n}");
         }
         if !self.infra_problems.is_empty() || !self.health_problems.is_empty() {
             for p in self.infra_problems.iter().chain(&self.health_problems) {
